@@ -723,9 +723,11 @@ func (r *renderer) siteText(s *Site) (string, []string) {
 			after = append(after, "_, _ = "+s.Local+", "+s.Local+"b")
 		}
 	case "varptr":
-		text = fmt.Sprintf("%s%s *%s", varkw, s.Local, r.refNoPtr(s.Ref))
 		if s.Ref.ViaPtr != nil {
+			// (decided first: naming T would register an import the file may not need)
 			text = fmt.Sprintf("%s%s %s", varkw, s.Local, r.tname(s.Ref.ViaPtr))
+		} else {
+			text = fmt.Sprintf("%s%s *%s", varkw, s.Local, r.refNoPtr(s.Ref))
 		}
 		if inFunc {
 			after = append(after, "_ = "+s.Local)
